@@ -87,7 +87,17 @@ class Prop(object):
         try:
             # the text as the caller has it: a string, octets, or a buffer the caller goes on using for something else (mc/alias.py)
             src = text if form == 'str' else text.encode('utf-8') if form == 'bytes' else bytearray(text.encode('utf-8'))
-            m = pgpy.PGPMessage.new(src, cleartext=True, **({'encoding': 'utf-8'} if form == 'bytearray+encoding' else {}))
+            if form == 'file':
+                # the text as a file on disk (written octet for octet: its line ends are part of the text)
+                import os
+                import tempfile
+                with tempfile.TemporaryDirectory(prefix='c11') as td:
+                    path = os.path.join(td, 'text.txt')
+                    with open(path, 'wb') as f:
+                        f.write(text.encode('utf-8'))
+                    m = pgpy.PGPMessage.new(path, file=True, cleartext=True)
+            else:
+                m = pgpy.PGPMessage.new(src, cleartext=True, **({'encoding': 'utf-8'} if form == 'bytearray+encoding' else {}))
             for k, rw, pb in signers:
                 m |= k.sign(m, hash=HashAlgorithm[halg], created=K.dt(K.T0 + 77))
             alias.scribble(src)
@@ -277,15 +287,15 @@ class Prop(object):
         """The text handed over as octets and as a buffer the caller re-uses afterwards: every line of the alphabet alone and every pair of lines."""
         r = Res()
         case = {k: v for k, v in case.items() if k not in ('text', 'hash')}
-        texts = [l for l in LINES] + [a + '\n' + b + '\n' for a in LINES[:9] for b in LINES[:9]]
+        texts = [l for l in LINES] + [a + '\n' + b + '\n' for a in LINES[:9] for b in LINES[:9]] + [a + '\r\n' + b + '\r\n' + c for a in LINES[:4] for b in LINES[:4] for c in ('', 'x\ry')]
         n = 0
         for ti, t in enumerate(texts):
-            for form in ('bytes', 'bytearray', 'bytearray+encoding'):
+            for form in ('bytes', 'bytearray', 'bytearray+encoding', 'file'):
                 if 'only' in case and case['only'] != [ti, form]:
                     continue
                 n += 1
                 self._one_text(r, t, dict(case, only=[ti, form]), 'SHA256', None, form)
-        r.samples.append({'input_forms': ['bytes', 'bytearray', 'bytearray+encoding'], 'texts': len(texts)})
+        r.samples.append({'input_forms': ['bytes', 'bytearray', 'bytearray+encoding', 'file'], 'texts': len(texts)})
         return r
 
     def c_slices(self, case):
